@@ -73,7 +73,7 @@ func sliceOnlyRead(x *ssa.Slice) bool {
 		case *ssa.DebugRef:
 		case *ssa.Call:
 			b, ok := r.Common().Value.(*ssa.Builtin)
-			if !ok || (b.Name() != "len" && b.Name() != "cap") {
+			if ok && (b.Name() == "append" || b.Name() == "copy") {
 				return false
 			}
 		case *ssa.IndexAddr:
@@ -87,6 +87,12 @@ func sliceOnlyRead(x *ssa.Slice) bool {
 				}
 			}
 		case *ssa.Index:
+		case ssa.CallInstruction:
+			// handed to another function as a window (drain(cases[internal:])): whatever that function does
+			// to its own slice header does not rearrange this one; append / copy do
+			if b, isB := r.Common().Value.(*ssa.Builtin); isB && (b.Name() == "append" || b.Name() == "copy") {
+				return false
+			}
 		default:
 			return false
 		}
@@ -107,6 +113,9 @@ func (c *Ctx) parallelSliceRule(rule string) {
 	var a, b sliceSig
 	for _, g := range c.region(w.OutChans) {
 		x, y := sliceSignature(g, isCase), sliceSignature(g, isID)
+		if g != w.OutChans && (x == sliceSig{} || y == sliceSig{}) {
+			continue // a helper that rearranges only one kind of slice (its own copy of the case list, say) is not the paired removal
+		}
 		a.moves, a.lowOnly, a.highOnly = a.moves+x.moves, a.lowOnly+x.lowOnly, a.highOnly+x.highOnly
 		b.moves, b.lowOnly, b.highOnly = b.moves+y.moves, b.lowOnly+y.lowOnly, b.highOnly+y.highOnly
 	}
@@ -332,6 +341,8 @@ func runC07(c *Ctx) {
 	// ---- R07.8
 	c.rule("R07.8", "the caller's channel is closed only when the subscription context is done or when the buffer is empty")
 	c.closeWhenDrained("R07.8")
+	c.rule("R07.11", "no value is filtered out by a test of its payload bytes on the way to the caller (null is a legal element)")
+	c.valuesNotFiltered("R07.11")
 	c.rule("R07.10", "a stream's sink leaves the table only together with its close (a removal keyed by something else — an outgoing channel id — silently cuts off an unrelated incoming stream)")
 	c.removalClosesRule("R07.10")
 	c.rule("R07.9", "every streamed value is decoded into memory allocated for that value (no recycled targets shared between values or subscriptions)")
@@ -785,5 +796,92 @@ func (c *Ctx) closeWhenDrained(rule string) {
 	})
 	if n == 0 {
 		c.und(rule, "close of the caller's channel", p.pos(buf.Pos()), "none found in the buffering goroutine")
+	}
+}
+
+// valuesNotFiltered: R07.11 / R08.10. Lossless delivery: every value frame for a known sink reaches the
+// sink, and every value the sink gets is decoded and queued. No test of the payload's *bytes* may decide
+// that (a "defensive" drop of empty or null payloads removes every nil element — a nil pointer, slice,
+// map or interface is a legal value and encodes as null — from the middle of a stream). The decoder's
+// error and the ok flag are the only payload-related conditions.
+func (c *Ctx) valuesNotFiltered(rule string) {
+	p, r := c.P, c.R
+	n := 0
+	payloadTest := func(site ssa.Instruction, isPayload func(ssa.Value) bool) ssa.Value {
+		for _, cf := range expandConds(impliedConds(site.Block())) {
+			v := cf.Cond
+			// the decoder's error is fine
+			if bo, ok := v.(*ssa.BinOp); ok && (isNilConst(bo.X) || isNilConst(bo.Y)) {
+				other := bo.X
+				if isNilConst(bo.X) {
+					other = bo.Y
+				}
+				if isErrorType(other.Type()) {
+					continue
+				}
+			}
+			if c.dependsOn(v, isPayload, 0, map[ssa.Value]bool{}) {
+				return v
+			}
+		}
+		return nil
+	}
+	// (a) the executor's hand-over: sink callback invoked with ok = true
+	if r.FChanhCb != nil {
+		for _, u := range usesOfKind(p.uses(r.FChanhCb), "call") {
+			call := u.At.(*ssa.Call)
+			args := call.Common().Args
+			if len(args) != 2 {
+				continue
+			}
+			if k, isK := args[1].(*ssa.Const); !isK || k.Value == nil || k.Value.String() != "true" {
+				continue
+			}
+			f := loadedField(args[0])
+			if f == nil {
+				continue
+			}
+			n++
+			construct := fmt.Sprintf("%s: value handed to the sink", fname(u.Fn))
+			odd := payloadTest(call, func(x ssa.Value) bool { return loadedField(x) == f })
+			c.check(odd == nil, rule, construct, c.ipos(call), "not conditional on the payload's bytes", "the value frame is handed to its sink only if a test of the payload's bytes passes (empty or null payloads are dropped as malformed): a nil element of a stream of pointers, slices, maps or interfaces encodes as null and silently disappears from the middle of the stream")
+		}
+	}
+	// (b) the sink: decode and queue
+	for _, sf := range c.sinkFuncs() {
+		var payload *ssa.Parameter
+		for _, prm := range sf.Params {
+			if sl, ok := prm.Type().Underlying().(*types.Slice); ok {
+				if b, ok := sl.Elem().Underlying().(*types.Basic); ok && b.Kind() == types.Byte {
+					payload = prm
+				}
+			}
+		}
+		if payload == nil {
+			continue
+		}
+		allInstrsRaw(sf, func(in ssa.Instruction) {
+			hit := false
+			switch x := in.(type) {
+			case *ssa.Send:
+				hit = isIntakeChan(x.Chan)
+			case *ssa.Select:
+				for _, st := range x.States {
+					if st.Dir == types.SendOnly && isIntakeChan(st.Chan) {
+						hit = true
+					}
+				}
+			}
+			if !hit {
+				return
+			}
+			n++
+			construct := fmt.Sprintf("%s: value queued for the caller", fname(sf))
+			odd := payloadTest(in, func(x ssa.Value) bool { return x == ssa.Value(payload) })
+			c.check(odd == nil, rule, construct, c.ipos(in), "not conditional on the payload's bytes", "the sink queues a value only if a test of the payload's bytes passes (empty or null payloads are ignored): nil elements of a stream silently disappear")
+		})
+	}
+	if n == 0 {
+		c.und(rule, "value hand-over", "-", "neither the sink callback invocation nor the sink's queueing was found")
 	}
 }
